@@ -733,6 +733,12 @@ func execLine(input string) string {
 	if len(f) > 0 && f[0] == "slowrr" {
 		return execSlowRouter(f)
 	}
+	if len(f) > 0 && f[0] == "cidle" {
+		return execCIdle(f)
+	}
+	if len(f) > 0 && f[0] == "cunreach" {
+		return execCUnreach(f)
+	}
 	if len(f) > 0 && f[0] == "dial" {
 		return execDial(f)
 	}
@@ -902,7 +908,9 @@ func (Area) Gen(r *rand.Rand, tier string, emit func(string)) {
 		"dial closed 1 2500", "dial bufrefuse 0 100", "dial dies 1 100", "dial dies 1 2600", "dial silent 0 200",
 		"dial silent 1 11000", "dial nocreds 0 0", "dial badcfg 1 0",
 	}
-	pre := append(append(append([]string{"slowrr 1500 50 1 0"}, slowresQ...), cstreamQ...), dialQ...)
+	idleQ := []string{"cidle restart 0", "cidle restart 8000", "cidle idletimeout 0", "cidle idletimeout 8000",
+		"cunreach refuse 1200", "cunreach hang 1200"}
+	pre := append(append(append(append([]string{"slowrr 1500 50 1 0"}, slowresQ...), cstreamQ...), dialQ...), idleQ...)
 	if tier == "thorough" {
 		pre = append(append(append(append(pre, slowT...), cstreamT...), rcloseT...), dialT...)
 	}
@@ -988,6 +996,10 @@ func (Area) Gen(r *rand.Rand, tier string, emit func(string)) {
 		emit(fmt.Sprintf("addrm %d %d %d %d", r.Intn(1_000_000), 6+r.Intn(6), 15+r.Intn(30), k%2))
 	}
 
+	// 1d'. the channel falls back to IDLE between two calls; unreachable target with a deadline (idle.go)
+	for _, l := range idleQ {
+		emit(l)
+	}
 	// 1e. unreachable / dying targets through the real grpc.NewClient (dial.go)
 	for _, l := range dialQ {
 		emit(l)
